@@ -374,6 +374,7 @@ def check_parser_by_folding(ctx, pt):
                                'six.itervalues': lambda d: list(d.values()) if isinstance(d, dict) else (_ for _ in ()).throw(Raised('AttributeError', None))},
                        opaque_calls={'open', 'io.open'}, steps=50000)
             f.enum_tables = enum_members
+            f.module = pt          # module-level constants (name sets, section tables) resolve to their folded definitions
             for fname, fn_ in fns.items():
                 if fname == 'read_policy_from_file':
                     continue
